@@ -184,3 +184,32 @@ def _guess(spec, model):
 def _ranges(spec, model):
     bad = [r for r in recovery_cases(0) if not r['ok'] and ('_data' in r['name'])]
     return {'confirmed': bool(bad), 'observed': [(b['name'], b['detail']) for b in bad[:3]], 'expected': 'ranges (min, max); reported error = actual normalised deviation'}
+
+
+@replayer('c12.branch_marks')
+def _branch_marks(spec, model):
+    """real fit: the reported error equals the deviation over the points marked as the requested branch"""
+    import pygaps
+    import pygaps.modelling as pgm
+    pygaps.logger.disabled = True
+    p = [0.1, 0.2, 0.3, 0.4, 0.5, 0.6, 0.7, 0.8, 0.9, 0.95, 0.93, 0.7, 0.4]
+    l = [float(5 * 2 * x / (1 + 2 * x)) for x in p[:11]] + [4.2, 3.6]
+    l[10] = l[9] + 0.4  # the last adsorption point, measured just below the previous pressure, off the curve
+    marks = [0] * 11 + [1, 1]
+    iso = _iso(p, l, branch=marks)
+    bad = []
+    try:
+        mi = pgm.model_iso(iso, model='Langmuir', branch='ads')
+        pa, la = numpy.asarray(p[:11]), numpy.asarray(l[:11])
+        pred = numpy.asarray(mi.loading_at(pa), dtype=float)
+        want = float(numpy.sqrt(numpy.mean((pred - la) ** 2)) / (max(la) - min(la)))
+        if not close(mi.model.rmse, want, rel=1e-6):
+            bad.append({'reported_rmse': mi.model.rmse, 'deviation_over_the_11_marked_adsorption_points': want})
+    except Exception as exc:
+        bad.append({'error': f"{type(exc).__name__}: {exc}"[:160]})
+    pd_, ld_ = sorted(p[:8]), sorted(l[:8])
+    try:
+        mi = pgm.model_iso(_iso(pd_, ld_, branch=[1] * 8), model='Langmuir', branch='des')
+    except Exception as exc:
+        bad.append({'desorption_only_isotherm': f"{type(exc).__name__}: {exc}"[:160]})
+    return {'confirmed': bool(bad), 'observed': bad, 'expected': 'fit on the marked points of the requested branch'}
